@@ -188,6 +188,11 @@ class BaseFileWriterSession(BaseWriterSession):
         '''Get the appropriate filename from the request.'''
         path = self._path_namer.get_filename(request.url_info)
 
+        return self._anti_clobber_path(path)
+
+    @classmethod
+    def _anti_clobber_path(cls, path: str) -> str:
+        '''Return a path that is not a directory and has no file as parent.'''
         if os.path.isdir(path):
             path += '.f'
         else:
@@ -195,6 +200,16 @@ class BaseFileWriterSession(BaseWriterSession):
             path = os.path.join(anti_clobber_dir_path(dir_name), name)
 
         return path
+
+    def _open_new_file(self, response: BaseResponse):
+        '''Open the file for a new download.
+
+        The name was chosen when the request was made. Since then, another
+        download may have created a directory of that name (or a file where
+        a directory is needed) and the server may have supplied another name.
+        '''
+        self._filename = self._anti_clobber_path(self._filename)
+        self.open_file(self._filename, response)
 
     def _process_file_continue_request(self, request: BaseRequest):
         '''Modify the request to resume downloading file.'''
@@ -216,7 +231,7 @@ class BaseFileWriterSession(BaseWriterSession):
             if self._file_continue_requested:
                 self._process_file_continue_ftp_response(response)
             else:
-                self.open_file(self._filename, response)
+                self._open_new_file(response)
         else:
             response = cast(HTTPResponse, response)
             code = response.status_code
@@ -233,7 +248,7 @@ class BaseFileWriterSession(BaseWriterSession):
                 if self._adjust_extension:
                     self._append_filename_extension(response)
 
-                self.open_file(self._filename, response)
+                self._open_new_file(response)
 
     def _process_file_continue_response(self, response: HTTPResponse):
         '''Process a partial content response.'''
